@@ -62,7 +62,9 @@ def prog_spin(rng):
 def gen(rng, cid):
     kind = rng.weighted([('mutex', 3), ('timed', 4), ('recursive', 2), ('spin', 1)])
     k = rng.weighted([(2, 4), (3, 4), (4, 2), (5, 1)])
-    lines = [f'case {cid} kind={kind} seed={rng.below(1 << 30)} strat={rng.weighted([(0, 5), (1, 3), (2, 2)])}']
+    # a third of the pika::mutex / timed_mutex cases use the non-throwing overloads (caller-supplied error_code)
+    ec = f" ec={1 if rng.below(3) == 0 else 0}" if kind in ('mutex', 'timed') else ''
+    lines = [f'case {cid} kind={kind} seed={rng.below(1 << 30)} strat={rng.weighted([(0, 5), (1, 3), (2, 2)])}{ec}']
     for t in range(k):
         if kind in ('mutex', 'timed'):
             ops = prog_mutex(rng, kind == 'timed')
@@ -109,7 +111,7 @@ e1check.run(dict(
     prop='C06', model='mtx', harness='e1/mutex.cpp', bin='e1_mutex', gen=gen, nontrivial=nontrivial, stats=stats,
     quick=1200, thorough=24000, extra=4000, extra_obligations=memory_orders,
     corr_name='E1 log of harness/e1/mutex.cpp accepted by Lean models Mtx / Rec / Spin (driver model mtx)',
-    rule='random programs (2-5 tasks; acquire/yield/release blocks over lock, try_lock, try_lock_for, unlock with re-lock, foreign/double unlock and missing unlock mixed in) on one pika::mutex, pika::timed_mutex (pika tasks), recursive_mutex_impl<spinlock> or bare spinlock (OS threads); PRNG schedules (uniform / priority / sticky); non-trivial = some task enqueued on the cv, spun on a spinlock, failed a try or got a misuse error; distinct = distinct (program, schedule seed) text',
+    rule='random programs (2-5 tasks; acquire/yield/release blocks over lock, try_lock, try_lock_for, unlock with re-lock, foreign/double unlock and missing unlock mixed in; throwing and error_code overloads) on one pika::mutex, pika::timed_mutex (pika tasks), recursive_mutex_impl<spinlock> or bare spinlock (OS threads); PRNG schedules (uniform / priority / sticky); non-trivial = some task enqueued on the cv, spun on a spinlock, failed a try or got a misuse error; distinct = distinct (program, schedule seed) text',
     assumptions=['"writes in one critical section are visible in the next" is not covered by the SC model; only a source scan of the spinlock memory orders (exchange acquire / store release) supports it',
                  'recursive_mutex_impl::unlock and spinlock::unlock by a non-owner are outside those classes\' contract (not detected by the code); the acceptors only admit unlock invocations by a holder'],
 ))
